@@ -132,7 +132,11 @@ def roundtrip(ctx, st, label, rng, nontrivial=True, only=None):
         ctx.case(text, nontrivial)
         ctx.count(f'obs.roundtrip.{sname}')
         case = {'label': label, 'style': sname, 'text': text}
-        if res[0] != 'ok':
+        if res[0] == 'exc' and res[1] == 'RecursionError':
+            # the recursive-descent parser ran into the interpreter's recursion limit (known finding: nesting depth)
+            ctx.count('obs.recursion_limit_hits')
+            ctx.violation('c06.parser_recursion_limit', f'{label}/{sname}: parse() raised RecursionError on the printed statement {text!r}', case)
+        elif res[0] != 'ok':
             mech = classify_text(text) or 'c06.printed_statement_rejected'
             ctx.violation(mech, f'{label}/{sname}: printed statement rejected ({res[1:]}): {text!r}', case)
         elif not ast_same(res[1], exp):
@@ -346,6 +350,10 @@ def twin_case(ctx, n):
         res = parse_shipped(text)
         ctx.case(('twin', text), True)
         ctx.count('obs.twin_statements')
+        if res[0] == 'exc' and res[1] == 'RecursionError':
+            ctx.count('obs.recursion_limit_hits')
+            ctx.violation('c06.parser_recursion_limit', f'twin/{n}: parse() raised RecursionError on {text!r}', {'label': f'twin/{n}', 'text': text})
+            return
         if res[0] != 'ok' or not ast_same(res[1], exp):
             ctx.violation('c06.parse_depends_on_history', f'twin/{n}: {text!r} parsed to {res[1] if res[0] == "ok" else res} after its twin, expected {exp}',
                           {'label': f'twin/{n}', 'texts': [t for t, _ in pairs]})
